@@ -53,6 +53,9 @@ def main():
     cmd = re.sub(r"\s+-v\b", "", cmd)
     sh("git checkout -- . && git clean -fdq", wt)
     patch = os.path.join(d, "patch.diff")
+    if os.path.exists(os.path.join(d, "patch.rebased.diff")):  # rebased by hand after a later fix: commit touched the same lines
+        patch = os.path.join(d, "patch.rebased.diff")
+        res["rebased"] = True
     try:
         # 1. clean tree: demo passes
         shutil.copy(demo_src, os.path.join(wt, demo_dst))
